@@ -180,6 +180,41 @@ def _run_one(case):
     return res
 
 
+def _run_isolated(case):
+    """Run one case in a child forked from this (never used) worker and ship the Result back through a pipe."""
+    import pickle
+    rfd, wfd = os.pipe()
+    pid = os.fork()
+    if pid == 0:
+        code = 0
+        try:
+            os.close(rfd)
+            data = pickle.dumps(_run_one(case), protocol=pickle.HIGHEST_PROTOCOL)
+            with os.fdopen(wfd, 'wb') as f:
+                f.write(data)
+        except BaseException:
+            code = 1
+        finally:
+            os._exit(code)
+    os.close(wfd)
+    chunks = []
+    with os.fdopen(rfd, 'rb') as f:
+        while True:
+            b = f.read(1 << 20)
+            if not b:
+                break
+            chunks.append(b)
+    _, status = os.waitpid(pid, 0)
+    if not chunks:
+        res = Result()
+        res.ev()
+        res.violation(f'{_MOD.PROPERTY}:case-process-died', f'the process running the case died (status {status}) without a '
+                      f'result', case=case)
+        res['sample'] = jsonable(case)
+        return res
+    return pickle.loads(b''.join(chunks))
+
+
 def execute(modname, cases, workers=None):
     """Run every case, return the aggregate. Cases are sharded over forked workers."""
     workers = workers or int(os.environ.get('VERIF_WORKERS', '16'))
@@ -193,10 +228,16 @@ def execute(modname, cases, workers=None):
         it = map(_run_one, cases)
         pool = None
     else:
+        # one freshly forked process per case: every case starts from the parent's pristine interpreter state, so a
+        # verdict never depends on which cases ran before in the same worker (class-level state leaked by the code
+        # under test would otherwise make a violation irreproducible in the fresh-process replay)
         ctx = mp.get_context('fork')
+        mod = importlib.import_module(modname)
+        if hasattr(mod, 'prefork'):
+            mod.prefork()                      # warm pure caches (lattice generators, pattern tables) once, in the parent
         pool = ctx.Pool(workers, initializer=_worker_init, initargs=(modname,))
-        chunk = max(1, min(64, len(cases) // (workers * 8)))
-        it = pool.imap(_run_one, cases, chunksize=chunk)
+        chunk = max(1, min(32, len(cases) // (workers * 8)))
+        it = pool.imap(_run_isolated, cases, chunksize=chunk)
     try:
         for i, res in enumerate(it):
             agg['evals'] += res['evals']
